@@ -148,6 +148,14 @@ func c11Case(w *core.W, j int) {
 
 	m := base.Copy()
 	m.SetTsig(keyName.Pres(), alg, fudge, int64(signedAt))
+	if j%6 == 5 {
+		// a response that reports a TSIG error other than BADKEY/BADSIG (unsigned by RFC 8945) and
+		// BADTIME (carries other data) is signed like any other message
+		te := []uint16{22, 9, 21, 23, 1, 4095}[(j/6)%6]
+		m.Extra[len(m.Extra)-1].(*dns.TSIG).Error = te
+		wit["tsig_error"] = te
+		w.Cover("tsig_error_field", fmt.Sprint(te))
+	}
 	var out []byte
 	var mac string
 	w.Eval(1)
